@@ -116,6 +116,8 @@ def builders() -> Dict[str, Callable[[], object]]:
         "box": lambda: cb.Box([0.5, -1, 0.2], [2, 1, 1.5]),
         "extrude": lambda: cb.Extrude(face_edges(), [0.3, 0.2, 1.5]),
         "revolve": lambda: cb.Revolve(cb.Face(quad(0, 0.5, 1.0)), 0.8, [0.1, 1.0, 0.0], [-1.0, 0.0, 0.2]),
+        "revolved_shape": lambda: cb.RevolvedShape(cb.Grid([1.0, 0.2, 0.0], [2.2, 1.1, 0.0], 2, 1), 0.7, [0.1, 1.0, 0.05], [-0.5, 0.0, 0.3]),
+        "transformed_stack3": lambda: cb.RevolvedStack(cb.Grid([1, 0, 0], [2, 1, 0], 1, 1), 1.2, [0, 1, 0.1], [0.2, 0, 0], 3),
         "wedge": lambda: cb.Wedge(cb.Face([[0, 0.5, 0], [1, 0.5, 0], [1, 1, 0], [0, 1, 0]])),
         "grid_shape": lambda: cb.ExtrudedShape(cb.Grid([0, 0, 0], [2, 1, 0], 2, 2), 1.5),
         "cylinder": lambda: cb.Cylinder([0.5, 0.2, 0.1], [0.5, 0.2, 2.1], [1.5, 0.2, 0.1]),
@@ -135,7 +137,7 @@ def builders() -> Dict[str, Callable[[], object]]:
     }
 
 
-MESHABLE = {"loft_edges", "oncurve_loft", "box", "extrude", "revolve", "wedge", "grid_shape", "cylinder", "frustum", "elbow",
+MESHABLE = {"revolved_shape", "transformed_stack3", "loft_edges", "oncurve_loft", "box", "extrude", "revolve", "wedge", "grid_shape", "cylinder", "frustum", "elbow",
             "extruded_ring", "revolved_ring", "hemisphere", "extruded_stack", "revolved_stack", "ljoint"}
 
 
